@@ -176,6 +176,7 @@ func (c *RunnerCloserManager) Run(ctx context.Context) error {
 
 	rErr := <-errCh
 
+	verifPoint("closer.run.runnersDone")
 	c.mngr.lock.Lock()
 	defer c.mngr.lock.Unlock()
 	c.closing.Store(true)
